@@ -19,7 +19,7 @@ func sortStrings(s []string) { sort.Strings(s) }
 var interpretedKeys = map[string]bool{
 	"strings.Contains": true, "strings.HasPrefix": true, "strings.HasSuffix": true, "strings.Index": true,
 	"strings.TrimPrefix": true, "strings.ReplaceAll": true, "strings.Replace": true, "strings.LastIndex": true,
-	"strings.LastIndexAny": true, "diag.Diagnostics.Append": true, "sort.Slice": true,
+	"strings.LastIndexAny": true, "diag.Diagnostics.Append": true, "sort.Slice": true, "sort.Strings": true,
 }
 
 func (e *Engine) isInterpreted(key string) bool { return interpretedKeys[key] }
@@ -146,6 +146,9 @@ func (vc *VC) interpreted(fr *frame, key string, cc *ssa.CallCommon, args []Val,
 	case "sort.Slice":
 		vc.assumed["interpreted: sort.Slice (result is a permutation of the input, sorted by less)"] = true
 		return vc.sortSlice(fr, cc, args, st), true
+	case "sort.Strings":
+		vc.assumed["interpreted: sort.Strings (result is a permutation of the input in increasing order)"] = true
+		return vc.sortSliceOf(fr, cc.Args[0], st, true), true
 	}
 	return Val{}, false
 }
@@ -159,12 +162,16 @@ func (vc *VC) sortSlice(fr *frame, cc *ssa.CallCommon, args []Val, st *state) Va
 		vc.errorf("%s: sort.Slice on non-literal interface", fr.fn.Name())
 		return Val{}
 	}
-	sl, ok := mi.X.Type().Underlying().(*types.Slice)
+	return vc.sortSliceOf(fr, mi.X, st, false)
+}
+
+func (vc *VC) sortSliceOf(fr *frame, sv ssa.Value, st *state, increasing bool) Val {
+	sl, ok := sv.Type().Underlying().(*types.Slice)
 	if !ok {
-		vc.errorf("%s: sort.Slice on non-slice", fr.fn.Name())
+		vc.errorf("%s: sorting a non-slice", fr.fn.Name())
 		return Val{}
 	}
-	s := vc.get(fr, mi.X)
+	s := vc.get(fr, sv)
 	key := vc.elemKey(sl.Elem())
 	es := vc.S.sortOf(sl.Elem())
 	arr := "(sarr " + s.T + ")"
@@ -220,6 +227,17 @@ func (vc *VC) sortSlice(fr *frame, cc *ssa.CallCommon, args []Val, st *state) Va
 						}
 					}
 				}
+			}
+		}
+	}
+	if increasing {
+		gs := vc.ghostByKey["Int"]
+		for _, a := range gs {
+			for _, b := range gs {
+				if a == b {
+					continue
+				}
+				vc.assume(st.reach, fmt.Sprintf("(=> (and (<= 0 %s) (< %s %s) (< %s %s)) (str.<= (select %s %s) (select %s %s)))", a, a, b, b, n, newInner, a, newInner, b))
 			}
 		}
 	}
